@@ -14,7 +14,7 @@ LEVEL = "model_checking"
 TECHNIQUE = "(a) breadth-first explicit-state search over constructor / encode / decode / discard histories over pairs and triples of command classes with a differential oracle (same operation alone); (b) preemption-bounded exhaustive enumeration of thread schedules at source-line granularity under a sys.settrace + semaphore-baton scheduler owning real threads"
 RULE = ("(a) pool of 10 classes chosen to collide (6/10/12/16-byte CDBs, inherited layout, constructors that raise after touching shared state, "
         "mutable arguments); operations new(X, 2 argument variants), new-invalid(X), X.unmarshall_cdb, X.marshall_cdb, repeat-marshal with the same "
-        "caller objects, deep copy of a live command (then modified), display helpers (print_cdb / print / repr) of a command, a caller-owned segment dictionary re-used after the caller changed its kind (also after a refused construction), first-use in 13 fresh processes (see C02), an opcode scan (a CDB marshalled for each of the 256 operation code values, 4 orders) with the pool classes observed before and after every 32 values; every pool class and decoder 300 (thorough 1100 / 66000) times in a row, each repetition observing what the first did; EXTENDED COPY segment kinds A, B, A in fresh processes (6 kinds x flag keys, both classes: bytes or refusal of A unchanged), the same battery of builds and decodes in 6 interpreters differing only in PYTHONHASHSEED, two commands over one caller-owned buffer with the first discarded and garbage-collected (WRITE, WRITE SAME, EXTENDED COPY inline data, ATA PASS-THROUGH 12/16 x all 256 ATA command codes x both directions), del; BFS with de-duplication on a digest of class-level state + live objects, all pairs to depth 4 (thorough 5) and all "
+        "caller objects, deep copy of a live command (then modified), display helpers (print_cdb / print / repr) of a command, a caller-owned segment dictionary re-used after the caller changed its kind (also after a refused construction), first-use in 13 fresh processes (see C02), same-thread re-entrancy: for every ordered pair of pool classes (and decoders) B runs to completion between two library lines of A, at every line of A in turn (signal handler / finalizer semantics), both observing what they observe alone; an opcode scan (a CDB marshalled for each of the 256 operation code values, 4 orders) with the pool classes observed before and after every 32 values; every pool class and decoder 300 (thorough 1100 / 66000) times in a row, each repetition observing what the first did; EXTENDED COPY segment kinds A, B, A in fresh processes (6 kinds x flag keys, both classes: bytes or refusal of A unchanged), the same battery of builds and decodes in 6 interpreters differing only in PYTHONHASHSEED, two commands over one caller-owned buffer with the first discarded and garbage-collected (WRITE, WRITE SAME, EXTENDED COPY inline data, ATA PASS-THROUGH 12/16 x all 256 ATA command codes x both directions), del; BFS with de-duplication on a digest of class-level state + live objects, all pairs to depth 4 (thorough 5) and all "
         "triples to depth 3 (thorough 4); in every state every live object and every class's codec is compared with what the same call yields "
         "alone; decode histories A,B,A over every ordered pair of 20 response kinds in a fresh process (result for A identical before and after B). (b) 2 threads (thorough: also 3), each 'c=X(..); bytes(c.cdb); X.unmarshall_cdb; X.marshall_cdb; len(c.datain)', every ordered "
         "pair of pool classes, plus decoder threads (standard INQUIRY, VPD 83h, MODE SENSE(10), REPORT LUNS, RTPG, READ FULL STATUS, READ ELEMENT STATUS, sense) in all ordered pairs, all schedules with at most 1 preemption at every traced source line of the library (thorough: also all schedules with at most 2 preemptions at function-entry granularity for the pairs over 5 classes of different CDB lengths, and 2 preemptions at "
@@ -95,6 +95,8 @@ def partitions(tier):
     parts += [["segstar", ver, kind, ek] for ver in (4, 5) for kind in SEG_KINDS for ek in ("", "dc", "cat")]
     parts += [["count", n, count_for(n, tier)] for n in POOL + list(DECODER_CASES)]
     parts += [["scan", o] for o in ("up", "down", "groups", "interleaved")]
+    ent = POOL + (list(THREAD_DECODERS) if tier != "quick" else ["dec:inquiry_std", "dec:vpd83", "dec:prfull"])
+    parts += [["reentrant", a] for a in ent]
     decs = list(THREAD_DECODERS)
     dq = decs if tier != "quick" else ["dec:inquiry_std", "dec:vpd83", "dec:rtpg", "dec:sense", "dec:prfull"]
     for a in dq:
@@ -573,6 +575,61 @@ def run_count(name, n):
     return []
 
 
+def run_reentrant(a, b, acc=None):
+    """same-thread re-entrancy (what a signal handler, a finalizer or a weakref callback does): operation B runs to completion in the
+    SAME thread between two source lines of operation A - at every line of A inside the library in turn. A and B each observe what
+    they observe alone."""
+    import os
+    import sys
+    pre = os.path.join(os.environ.get("VF_REPO", "/repo"), "pyscsi") + os.sep
+    body_a, body_b = thread_body(a, 0), thread_body(b, 0)
+    ref_a, ref_b = solo_thread(a, 0), solo_thread(b, 0)
+    out = []
+    k = 0
+    while True:
+        state = {"n": 0, "fired": False, "b": None, "where": None}
+
+        def tracer(frame, event, arg):
+            if not frame.f_code.co_filename.startswith(pre):
+                return None
+            return line_tracer
+
+        def line_tracer(frame, event, arg):
+            if event == "line" and not state["fired"]:
+                if state["n"] == k:
+                    state["fired"] = True
+                    state["where"] = "%s:%d" % (os.path.basename(frame.f_code.co_filename), frame.f_lineno)
+                    sys.settrace(None)
+                    try:
+                        state["b"] = body_b()
+                    except Exception as e:   # noqa: BLE001
+                        state["b"] = ("raised", type(e).__name__, str(e)[:80])
+                    finally:
+                        sys.settrace(tracer)
+                state["n"] += 1
+            return line_tracer
+        sys.settrace(tracer)
+        try:
+            try:
+                got_a = body_a()
+            except Exception as e:   # noqa: BLE001
+                got_a = ("raised", type(e).__name__, str(e)[:80])
+        finally:
+            sys.settrace(None)
+        if not state["fired"]:
+            break
+        if acc is not None:
+            acc.transitions += 1
+        for who, got, ref in ((a, got_a, ref_a), (b, state["b"], ref_b)):
+            if type(got) is not type(ref) or repr(got) != repr(ref):
+                out.append(("reentrant/%s" % who, "%s interrupted at line #%d (%s) by %s running to completion in the same thread: %s observes %s, alone %s"
+                            % (a, k, state["where"], b, who, str(got)[:120], str(ref)[:120])))
+        if out:
+            return out, k + 1
+        k += 1
+    return out, k
+
+
 def run_scan(order):
     """an opcode scanner in the same process: every pool class observed (build, decode, re-encode), then a minimal CDB marshalled for
     every one of the 256 operation code values (those without a fixed length are refused) in the given order, the pool observed again
@@ -697,6 +754,8 @@ def run_discard(case):
 
 
 def run_case(case):
+    if case[0] == "reentrant":
+        return run_reentrant(case[1], case[2])[0]
     if case[0] == "scan":
         return run_scan(case[1])
     if case[0] == "count":
@@ -741,6 +800,19 @@ MAXTASKS = 1      # fresh forked worker per partition (the decode histories need
 def run_partition(part, tier, seed):
     acc = Acc(seed)
     b = bounds(tier)
+    if part[0] == "reentrant":
+        a = part[1]
+        ent = POOL + (list(THREAD_DECODERS) if tier != "quick" else ["dec:inquiry_std", "dec:vpd83", "dec:prfull"])
+        for b in ent:
+            case = ["reentrant", a, b]
+            acc.case(case, nontrivial=True, key=tuple(case))
+            v, npoints = run_reentrant(a, b, acc)
+            acc.add("reentrancy_points", npoints)
+            acc.traces += npoints
+            for k, w in v:
+                acc.violation(k, w, case)
+            acc.outcome((tuple(case), npoints, tuple(k for k, _ in v)))
+        return acc
     if part[0] == "scan":
         case = list(part)
         acc.case(case, nontrivial=True, key=tuple(case))
